@@ -1,0 +1,7 @@
+//go:build verif
+
+package catalog
+
+import "github.com/jsightapi/jsight-api-core/verifhook"
+
+func verifYield(point string) { verifhook.Yield(point) }
